@@ -29,6 +29,8 @@ func init() {
 		{Name: "f64.convert_i64_u converts the signed view", File: f, Old: "R%d.f64 = (double)(R%d.u64);", New: "R%d.f64 = (double)(R%d.i64);", Expect: "c-template-semantics :: f64.convert_i64_u"},
 		{Name: "i32.shr_u masks the count with 63", File: f, Old: "R%d.i32 = (int32_t)((uint32_t)(R%d.i32)>>(uint32_t)(R%d.i32&31));", New: "R%d.i32 = (int32_t)((uint32_t)(R%d.i32)>>(uint32_t)(R%d.i32&63));", Expect: "c-template-semantics :: i32.shr_u"},
 		{Name: "module-level exports not copied into the functions", File: "internal/wat/watutil/wat2c/wat2c.go", Old: "\t\t\tif fn.Name == e.FuncIdx && fn.ExportName == \"\" {\n\t\t\t\tfn.ExportName = e.Name\n\t\t\t}\n", New: "\t\t\t_ = fn\n", Expect: "c-export-forms-normalised"},
+		{Name: "f64.store copies from memory into the register", File: f, Old: "\"%smemcpy(&%s_memory[(uint64_t)R%d.u32+%d], &R%d.f64, 8); // %s\\n\",\n\t\t\t\tindent, p.opt.Prefix, sp1, i.Offset, sp0,", New: "\"%smemcpy(&R%d.f64, &%s_memory[(uint64_t)R%d.u32+%d], 8); // %s\\n\",\n\t\t\t\tindent, sp0, p.opt.Prefix, sp1, i.Offset,", Expect: "c-memory-access-semantics :: f64.store"},
+		{Name: "i32.store16 ignores the memarg offset", File: f, Old: "memcpy(&%s_memory[(uint64_t)R%d.u32+%d], &R_u16, 2); // %s\\n\",\n\t\t\t\tindent, sp0, p.opt.Prefix, sp1, i.Offset,", New: "memcpy(&%s_memory[(uint64_t)R%d.u32+%d], &R_u16, 2); // %s\\n\",\n\t\t\t\tindent, sp0, p.opt.Prefix, sp1, i.Offset*0,", Expect: "c-memory-access-semantics :: i32.store16"},
 		{Name: "i32.const template ends in its comment without a newline", File: f, Old: "\"%sR%d.i32 = %d; // %s\\n\", indent, sp0, i.X, insString(i))", New: "\"%sR%d.i32 = %d; // %s\", indent, sp0, i.X, insString(i))", Expect: "line-terminated :: wat2c"},
 		{Name: "br_table locates the first result after popping them", File: f, Old: "\t\t\t\t\tfirstResultOffset := retIdxList[0]\n", New: "\t\t\t\t\tfirstResultOffset := stk.Len() - len(destScopeResults)\n", Expect: "carried-results-located :: wat2c INS_BR_TABLE"},
 		{Name: "br_table writes the moves before the case label", File: f, Old: "\t\t\t\t\t\tfmt.Fprintf(w, \"%s%s\\n\", indent, caseLabel)\n\t\t\t\t\t\tcaseLabel = \"\"\n", New: "", Expect: "switch-arm-statements-labelled :: wat2c INS_BR_TABLE: case label, results moved"},
@@ -55,8 +57,8 @@ func init() {
 		{Name: "i64.shr_s mask 31", File: f, Old: "R%d.i64 = R%d.i64 >> (((uint64_t)R%d.i64)&63);", New: "R%d.i64 = R%d.i64 >> (((uint64_t)R%d.i64)&31);", Expect: "c-template-semantics :: i64.shr_s"},
 		{Name: "i32.ge_s uses >", File: f, Old: "R%d.i32 = (R%d.i32>=R%d.i32)? 1: 0;", New: "R%d.i32 = (R%d.i32>R%d.i32)? 1: 0;", Expect: "c-template-semantics :: i32.ge_s"},
 		{Name: "f64.lt reads the f32 view", File: f, Old: "R%d.i32 = (R%d.f64<R%d.f64)? 1: 0;", New: "R%d.i32 = (R%d.f64<R%d.f32)? 1: 0;", Expect: "c-slot-type :: f64.lt"},
-		{Name: "i64.load16_s zero-extends", File: f, Old: "R%d.i64 = (int64_t)((int16_t)R_u16);", New: "R%d.i64 = (int64_t)((uint16_t)R_u16);", Expect: "c-load-extension :: i64.load16_s"},
-		{Name: "i32.load8_u copies two bytes", File: f, Old: "memcpy(&R_u8, &%s_memory[(uint64_t)R%d.u32+%d], 1); R%d.i32 = (int32_t)((uint8_t)R_u8);", New: "memcpy(&R_u8, &%s_memory[(uint64_t)R%d.u32+%d], 2); R%d.i32 = (int32_t)((uint8_t)R_u8);", Expect: "c-access-width :: i32.load8_u"},
+		{Name: "i64.load16_s zero-extends", File: f, Old: "R%d.i64 = (int64_t)((int16_t)R_u16);", New: "R%d.i64 = (int64_t)((uint16_t)R_u16);", Expect: "c-memory-access-semantics :: i64.load16_s"},
+		{Name: "i32.load8_u copies two bytes", File: f, Old: "memcpy(&R_u8, &%s_memory[(uint64_t)R%d.u32+%d], 1); R%d.i32 = (int32_t)((uint8_t)R_u8);", New: "memcpy(&R_u8, &%s_memory[(uint64_t)R%d.u32+%d], 2); R%d.i32 = (int32_t)((uint8_t)R_u8);", Expect: "c-memory-access-semantics :: i32.load8_u"},
 		{Name: "i64.trunc_f64_u goes through int32", File: f, Old: "R%d.i64 = (int64_t)(uint64_t)(trunc(R%d.f64));", New: "R%d.i64 = (int64_t)(uint32_t)(trunc(R%d.f64));", Expect: "c-template-semantics :: i64.trunc_f64_u"},
 		{Name: "f32.ceil uses floorf", File: f, Old: "R%d.f32 = ceilf(R%d.f32);", New: "R%d.f32 = floorf(R%d.f32);", Expect: "c-template-semantics :: f32.ceil"},
 		{Name: "i32.rem_u divides", File: f, Old: "R%d.i32 = (int32_t)((uint32_t)(R%d.i32)%%(uint32_t)(R%d.i32));", New: "R%d.i32 = (int32_t)((uint32_t)(R%d.i32)/(uint32_t)(R%d.i32));", Expect: "c-template-semantics :: i32.rem_u"},
@@ -168,6 +170,9 @@ func runC03(c *Ctx) {
 	// rules below (operator, casts, mask, operand order, cast chain) are not applied: an equivalent C expression would
 	// trip them, and the evaluation sees the stored value itself
 	semDecided := c03TemplateSemantics(c, p, by)
+	for m := range c03MemoryAccessSemantics(c, p, by) {
+		semDecided[m] = true
+	}
 	nops := 0
 	for _, k := range names {
 		m := ins[k]
@@ -254,7 +259,7 @@ func runC03(c *Ctx) {
 						break
 					}
 				}
-				c.Check(good, "c-operand-order", m, loc, "address is the second popped slot", "store template for "+m+" does not index memory with the address slot (second popped)")
+				shapeCheck(good, "c-operand-order", m, loc, "address is the second popped slot", "store template for "+m+" does not index memory with the address slot (second popped)")
 			}
 			// (5) operator / function
 			isInt := t == "i32" || t == "i64"
@@ -343,7 +348,7 @@ func runC03(c *Ctx) {
 				if mc == nil {
 					c.Undecided("c-access-width", m, loc, "memcpy size not found in the template")
 				} else {
-					c.Check(mc[1] == w, "c-access-width", m, loc, mc[1]+" bytes", fmt.Sprintf("%s transfers %s bytes; the instruction accesses %s", m, mc[1], w))
+					shapeCheck(mc[1] == w, "c-access-width", m, loc, mc[1]+" bytes", fmt.Sprintf("%s transfers %s bytes; the instruction accesses %s", m, mc[1], w))
 				}
 				if nb != "" && strings.Contains(op, "load") {
 					signed := strings.HasSuffix(op, "_s")
@@ -351,7 +356,7 @@ func runC03(c *Ctx) {
 					if !signed {
 						wantCast = "(uint" + nb + "_t)"
 					}
-					c.Check(strings.Contains(line.Format, wantCast+"R_u"+nb), "c-load-extension", m, loc, "extends through "+wantCast, fmt.Sprintf("%s must extend the loaded value through %s; template: %s", m, wantCast, strings.TrimSpace(line.Format)))
+					shapeCheck(strings.Contains(line.Format, wantCast+"R_u"+nb), "c-load-extension", m, loc, "extends through "+wantCast, fmt.Sprintf("%s must extend the loaded value through %s; template: %s", m, wantCast, strings.TrimSpace(line.Format)))
 				}
 			}
 			// integer conversions
